@@ -92,7 +92,9 @@ package cluster
 // from, and delivers messages into the cluster's own channel
 //@ func New
 //@   functype f infoContract
+//@   results cl, err
 //@   requires f != nil
+//@   ensures err == nil ==> cl != nil
 //@   before memberlist.Create assert [C19.wire] typeIs(conf.Delegate, *cluster.delegate) && asType(conf.Delegate, *cluster.delegate) != nil && asType(conf.Delegate, *cluster.delegate).shardView == cluster.shardView && cluster.shardView != nil && asType(conf.Delegate, *cluster.delegate).msgs == cluster.msgs && typeIs(conf.Events, *cluster.Cluster) && asType(conf.Events, *cluster.Cluster) == cluster
 //@   modifies nothing
 
